@@ -2,7 +2,8 @@
 choice derives from one PRNG seeded by the caller."""
 import random
 
-FAMILY = [0, 1, 2, 3, 4, 5, 6, 7]          # component type ids (see coq/theories/Sync/Types.v)
+FAMILY = [0, 1, 2, 3, 4, 5, 6, 7]
+PROFILES = ['entities', 'values', 'parents', 'mixed', 'assets', 'skinned', 'appcmd', 'promotion']          # component type ids (see coq/theories/Sync/Types.v)
 
 
 class Gen:
@@ -24,6 +25,9 @@ class Gen:
         self.lines.append(s)
         k = s.split()[0] + (' ' + s.split()[2] if s.startswith('OP') else '')
         self.stats[k] = self.stats.get(k, 0) + 1
+
+    def wtypes(self):
+        return [t for t in self.types if t != 8]
 
     def fresh_val(self, t=None):
         self.val += 1
@@ -59,15 +63,19 @@ class Gen:
         kinds = {'entities': ['spawn', 'spawn', 'despawn', 'spawnc'],
                  'values': ['spawnc', 'write', 'write', 'write', 'writer', 'excl'],
                  'parents': ['spawn', 'spawn', 'parent', 'parent', 'despawn'],
-                 'mixed': ['spawn', 'spawnc', 'despawn', 'write', 'write', 'writer', 'parent', 'excl', 'mark']}[self.profile]
+                 'mixed': ['spawn', 'spawnc', 'despawn', 'write', 'write', 'writer', 'parent', 'excl', 'mark'],
+                 'assets': ['asset', 'asset', 'asset', 'asseti', 'spawn', 'sleep'],
+                 'skinned': ['spawn', 'spawn', 'skin', 'skin', 'write', 'despawn'],
+                 'appcmd': ['spawnc', 'spawn', 'write', 'writer', 'parent', 'appdespawn', 'appdespawn'],
+                 'promotion': ['spawnc', 'write', 'writer', 'despawn']}[self.profile]
         k = r.choice(kinds)
         if k in ('spawn', 'spawnc'):
             h = self.next_h
             self.next_h += 1
             marked = 1 if r.random() < 0.9 else 0
             comps = ''
-            if k == 'spawnc' and self.types:
-                ts = r.sample(self.types, r.randint(1, min(2, len(self.types))))
+            if k == 'spawnc' and self.wtypes():
+                ts = r.sample(self.wtypes(), r.randint(1, min(2, len(self.wtypes()))))
                 comps = ' ' + ' '.join('%d:%d' % (t, self.fresh_val(t)) for t in ts)
             self.emit('OP %d spawn %d %d%s' % (p, h, marked, comps))
             self.owner[h] = p
@@ -86,15 +94,33 @@ class Gen:
                 h = r.choice(un)
                 self.emit('OP %d mark %d' % (self.owner[h], h))
                 self.marked.add(h)
-        elif k in ('write', 'writer') and self.alive and self.types:
+        elif k in ('write', 'writer') and self.alive and self.wtypes():
             h = r.choice(sorted(self.alive))
             q = self.owner[h] if k == 'write' else p
-            t = r.choice(self.types)
+            t = r.choice(self.wtypes())
             self.emit('OP %d write %d %d %d' % (q, h, t, self.fresh_val(t)))
         elif k == 'excl' and self.alive and self.types:
             h = r.choice(sorted(self.alive))
             t = r.choice([t for t in self.types if t in (0, 1, 2, 3, 4, 7)] or [0])
             self.emit('OP %d excl %d %d %d' % (self.owner[h], h, t, r.choice([0, 1, 1])))
+        elif k == 'asset':
+            kind = r.choice([0, 0, 1, 2, 3])
+            a = r.randint(1, 4)
+            self.emit('OP %d addasset %d %d %d' % (p, kind, a, self.fresh_val()))
+        elif k == 'asseti':
+            self.emit('OP %d addasset_index %d %d' % (p, r.choice([0, 1, 2, 3]), self.fresh_val()))
+        elif k == 'sleep':
+            self.emit('SLEEP 30')
+        elif k == 'skin' and self.alive:
+            h = r.choice(sorted(self.alive))
+            js = [r.choice(sorted(self.alive)) for _ in range(r.randint(0, 3))]
+            ps = [self.fresh_val() for _ in range(r.randint(0, 2))]
+            self.emit('OP %d skin %d %s %s' % (self.owner[h] if r.random() < 0.7 else p, h,
+                                               ','.join(map(str, js)) or '-', ','.join(map(str, ps)) or '-'))
+        elif k == 'appdespawn' and self.alive:
+            h = r.choice(sorted(self.alive))
+            self.emit('OP %d appcmd %d despawn %d' % (p, r.randint(0, 2), h))
+            self.alive.discard(h)
         elif k == 'parent' and len(self.alive) >= 2:
             c, par = r.sample(sorted(self.alive), 2)
             q = self.owner[c] if r.random() < 0.5 else p
@@ -104,6 +130,12 @@ class Gen:
         r = self.r
         self.emit('PEERS %d' % self.n)
         # registrations: mostly the same on every peer; sometimes one peer lacks one
+        if self.profile == 'skinned' and 8 not in self.types:
+            self.types = sorted(set(self.types) | {8})
+        if self.profile == 'assets':
+            for p in range(self.n):
+                sw = [1, 1, 1] if r.random() < 0.7 else [r.randint(0, 1) for _ in range(3)]
+                self.emit('OP %d switches %d %d %d' % (p, sw[0], sw[1], sw[2]))
         for p in range(self.n):
             ts = list(self.types)
             if self.profile == 'mixed' and p > 0 and r.random() < 0.15 and len(ts) > 1:
@@ -138,6 +170,15 @@ class Gen:
                     self.emit('ROUND %d' % r.randint(1, 6))
         for p in late:
             self.setup(p)
+        if self.profile == 'promotion' and self.n >= 2:
+            self.emit('DRAIN 60')
+            self.emit('OP 0 promote %d' % r.randint(1, self.n - 1))
+            self.emit('ROUND %d' % r.randint(10, 16))
+            for _ in range(4):
+                self.op()
+                self.frames()
+        if self.profile == 'assets':
+            self.emit('SLEEP 60')
         self.emit('DRAIN 80')
         return '\n'.join(self.lines) + '\n'
 
